@@ -84,6 +84,7 @@ type A struct {
 	apiReach map[*ssa.Function]bool
 
 	norm     *normResult
+	turned   int // comparisons written constant-first that were turned round before the analysis
 	lineMaps map[string][]int // normalised file -> original line per line (0: inside inlined code)
 
 	obs      []*Ob
@@ -317,6 +318,22 @@ func load(repo string, overlay map[string][]byte, tags string) (*A, error) {
 	}
 	var norm *normResult
 	knownFuncs = nil
+	turned := 0
+	if os.Getenv("VERIF_NO_NORMALIZE") == "" {
+		// comparisons with the constant on the left are turned round first (normalize.go, constantLeft)
+		if files, n := constantLeft(pkgs, overlay); n > 0 {
+			ov2 := map[string][]byte{}
+			for k, v := range overlay {
+				ov2[k] = v
+			}
+			for k, v := range files {
+				ov2[k] = v
+			}
+			if npkgs, nerr := loadPkgs(repo, ov2, tags); nerr == nil {
+				pkgs, overlay, turned = npkgs, ov2, n
+			}
+		}
+	}
 	if inv, ierr := loadInventory(inventoryPath()); ierr == nil && os.Getenv("VERIF_NO_NORMALIZE") == "" {
 		knownFuncs = inv
 		fresh := false
@@ -345,6 +362,7 @@ func load(repo string, overlay map[string][]byte, tags string) (*A, error) {
 		floors: map[string]int{}, info: map[string]any{}, seenKeys: map[string]int{}}
 	a.Fset = pkgs[0].Fset
 	a.norm = norm
+	a.turned = turned
 	if norm != nil && norm.Overlay != nil {
 		a.lineMaps = map[string][]int{}
 		for f, nb := range norm.Overlay {
